@@ -307,26 +307,39 @@ package vnet
 //@   ensures err == nil ==> c != nil && fresh(c) && c.locAddr == locAddr && c.remAddr == remAddr && c.obs == obs && !c.closed && !c.bound
 //@   ensures err != nil ==> c == nil
 
+// every probe of a port is logged (ghost): assignPort reports exhaustion only after probing the whole range
+//@ ghost global probeN mathint
+//@ ghost global probePort map[mathint]mathint
+//@ ghost global probeFailed map[mathint]bool
 //@ func (v *Net) allocateLocalAddr(ip net.IP, port int) (err error)
 //@   locked v.mutex
 //@   requires v.udpConns != nil
-//@   modifies lastFind
+//@   modifies lastFind, probeN, probePort, probeFailed
 //@   ensures [host] err == nil ==> ipUnspec[base(ip)] || hostHas(ref(v), ipStr[base(ip)])
-//@   loop 1 invariant [scan] held(v.mutex) && 0 <= rangeindex + 1 && rangeindex < len(ips)
+//@   ensures [log] probeN == old(probeN) + 1 && probePort == upd(old(probePort), old(probeN), port) && probeFailed == upd(old(probeFailed), old(probeN), err != nil)
+//@   ghost at return: probePort[probeN] = port; probeFailed[probeN] = (err != nil); probeN = probeN + 1
+//@   loop 1 invariant [scan] held(v.mutex) && 0 <= rangeindex + 1 && rangeindex < len(ips) && probeN == old(probeN) && probePort == old(probePort) && probeFailed == old(probeFailed)
 
 //@ func (v *Net) assignPort(ip net.IP, start int, end int) (port int, err error)
 //@   locked v.mutex
 //@   requires v.udpConns != nil && 0 <= start && end < 65536
-//@   modifies randLast, lastFind
+//@   modifies randLast, lastFind, probeN, probePort, probeFailed
 //@   ensures [range] err == nil ==> start <= port && port <= end
+//@   ensures [picked] err == nil ==> probeN > old(probeN) && !probeFailed[probeN - 1] && probePort[probeN - 1] == port
 //@   ensures [fail] err != nil ==> port == -1 && (err == errEndPortLessThanStart || err == errPortSpaceExhausted)
 //@   ensures [order] (err == errEndPortLessThanStart) == (end < start)
-//@   loop 1 invariant [scan] held(v.mutex) && 0 <= i && i <= space && space == end + 1 - start && 0 <= offset && offset < space
+//@   ensures [exhausted] err == errPortSpaceExhausted ==> probeN == old(probeN) + (end + 1 - start) &&
+//@            (forall j mathint :: {probeFailed[old(probeN) + j]} 0 <= j && j < end + 1 - start ==> probeFailed[old(probeN) + j] &&
+//@                  probePort[old(probeN) + j] == ((randLast + j) % (end + 1 - start)) + start)
+//@   loop 1 invariant [scan] held(v.mutex) && 0 <= i && i <= space && space == end + 1 - start && 0 <= offset && offset < space && offset == randLast &&
+//@            probeN == old(probeN) + i &&
+//@            (forall j mathint :: {probeFailed[old(probeN) + j]} 0 <= j && j < i ==> probeFailed[old(probeN) + j] &&
+//@                  probePort[old(probeN) + j] == ((randLast + j) % (end + 1 - start)) + start)
 
 //@ func (v *Net) _dialUDP(network string, locAddr *net.UDPAddr, remAddr *net.UDPAddr) (r transport.UDPConn, err error)
 //@   locked v.mutex
 //@   requires v.udpConns != nil
-//@   modifies randLast, lastFind, v.udpConns.portMap
+//@   modifies randLast, lastFind, probeN, probePort, probeFailed, v.udpConns.portMap
 //@   ensures [network] network != "udp" && network != "udp4" ==> err != nil
 //@   ensures [conn] err == nil ==> r != nil && typeis(r, *UDPConn) && ptr(r, *UDPConn) != nil && ptr(r, *UDPConn).locAddr != nil
 //@   ensures [registered] err == nil ==> ptr(r, *UDPConn).bound
